@@ -577,6 +577,21 @@ impl Interp {
                             .map(|qv| if long { qv.saturating_mul(2) } else { (qv / 2).max(1) })
                             .unwrap_or(0)
                     }
+                    // limits any execution satisfies: "receive at least one unit" for a long, "pay at most the largest number" for a short
+                    (3, Some(p)) => {
+                        if p.direction == Direction::AddToAmm {
+                            1
+                        } else {
+                            u128::MAX
+                        }
+                    }
+                    // comfortably on the satisfied side: half / double the quoted amount
+                    (4, Some(p)) => {
+                        let long = p.direction == Direction::AddToAmm;
+                        self.output_amount(v, p.direction.clone(), p.size.value.u128())
+                            .map(|qv| if long { (qv / 4).max(1) } else { qv.saturating_mul(4).saturating_add(4) })
+                            .unwrap_or(0)
+                    }
                     _ => 0,
                 };
                 // one liquidation in three by a funded caller of a native deployment comes with stray coins attached
